@@ -107,6 +107,11 @@ unsafe fn sym_drain()
     fsm::DRAIN[31] = sym_usize();
 }
 
+/// Stub for `std::alloc::dealloc`: memory is never freed. Safe Rust cannot observe a free, and CBMC's
+/// allocator model otherwise raises spurious assertions (`free argument has offset zero`, ..) whose
+/// presence depends on unrelated details of the build.
+unsafe fn stub_dealloc(_ptr: *mut u8, _layout: std::alloc::Layout) {}
+
 // ---------------------------------------------------------------------------------------------
 // ghost state written by stubs
 // ---------------------------------------------------------------------------------------------
@@ -982,6 +987,7 @@ unsafe fn any_tree()
 #[kani::stub(process_references, stub_process_references)]
 #[kani::stub(crate::codegen::finder::CodeFinder::find, stub_finder_find)]
 #[kani::stub(crate::config::context::Context::cache_next_reference_id, stub_cache_next_reference_id)]
+#[kani::stub(std::alloc::dealloc, stub_dealloc)]
 fn d_generate()
 {
     log::set_max_level(log::LevelFilter::Off);
